@@ -290,7 +290,8 @@ class MD3(DriftDetector):
         self.drift_state = None
 
         if self.oracle_data is None:
-            self.oracle_data = labeled_sample
+            # a private copy: the caller may reuse or overwrite its frame
+            self.oracle_data = labeled_sample.copy()
         else:
             self.oracle_data = pd.concat(
                 [self.oracle_data, labeled_sample], ignore_index=True
